@@ -35,6 +35,9 @@ pub mod telemetry;
 
 mod error;
 
+#[cfg(feature = "verif-hooks")]
+pub mod verif_hooks;
+
 pub use error::{Error, Result};
 
 /// Configuration for the CardinalSin system
